@@ -47,17 +47,27 @@ Definition sp_int (l : list N) : Z * bool :=
   end.
 
 (* ---- symbol context ----------------------------------------------------------------------- *)
-(* slot i (0-based) is SID i+1; None = a slot whose text is unknown *)
-Definition symctx := list (option text).
-Definition system_ctx : symctx := map Some system_symbols.
+(* a context is a sequence of segments: explicit slots (None = a slot whose text is unknown), or a run of n slots
+   of unknown text (what an import leaves that no catalog resolves; n may be astronomically large, so it is
+   never spelled out).  Slot i (0-based) is SID i+1. *)
+Inductive seg := Slots (l : list (option text)) | Gap (n : N).
+Definition symctx := list seg.
+Definition system_ctx : symctx := [Slots (map Some system_symbols)].
+Definition seg_size (g : seg) : N := match g with Slots l => N.of_nat (length l) | Gap n => n end.
+Definition ctx_size (ctx : symctx) : N := fold_right (fun g a => seg_size g + a) 0 ctx.
+Fixpoint ctx_slot (ctx : symctx) (i : N) : option (option text) :=
+  match ctx with
+  | [] => None                                         (* SID not defined by any table so far *)
+  | g :: r =>
+    if i <? seg_size g then match g with Slots l => nth_error l (N.to_nat i) | Gap _ => Some None end
+    else ctx_slot r (i - seg_size g)
+  end.
 Definition resolve_sid (ctx : symctx) (sid : N) : option symv :=
   if sid =? 0 then Some (SymSid 0)
-  else if N.of_nat (length ctx) <? sid then None     (* beyond every table: same answer as the lookup below, without
-                                                        turning an arbitrarily large SID into a unary number *)
-  else match nth_error ctx (N.to_nat (sid - 1)) with
+  else match ctx_slot ctx (sid - 1) with
        | Some (Some t) => Some (SymText t)
        | Some None => Some (SymSid sid)
-       | None => None                                  (* SID not defined by any table so far *)
+       | None => None
        end.
 
 (* ---- values ------------------------------------------------------------------------------------ *)
@@ -211,29 +221,44 @@ Fixpoint find_field (fs : list (symv * value)) (name : string) : option value :=
   | (y, v) :: r => if field_is y name then Some v else find_field r name
   end.
 Definition strip_ann (v : value) : value := match v with VAnn _ x => x | _ => v end.
-Definition lst_symbols (v : option value) : symctx :=
+Definition count_field (fs : list (symv * value)) (name : string) : nat :=
+  length (filter (fun p => field_is (fst p) name) fs).
+Definition lst_symbols (v : option value) : list (option text) :=
   match option_map strip_ann v with
   | Some (VList l) => map (fun x => match strip_ann x with VString t => Some t | _ => None end) l
   | _ => []
   end.
-Definition import_slots (v : value) : symctx :=
+(* one import declaration when there is no catalog; None = the stream is invalid.  Of repeated fields the first
+   counts; null and ill-typed fields count as absent, except max_id: null.int, which is an error; the version
+   plays no role without a catalog *)
+Definition import_slots (v : value) : option symctx :=
   match strip_ann v with
   | VStruct fs =>
-    match option_map strip_ann (find_field fs "name"), option_map strip_ann (find_field fs "max_id") with
-    | Some (VString nm), Some (VInt m) =>
-      if list_eqb nm (s "$ion"%string) || list_eqb nm [] then []
-      else repeat None (Z.to_nat m)                    (* no catalog: placeholder slots of unknown text *)
-    | _, _ => []
-    end
-  | _ => []
+    let name := match option_map strip_ann (find_field fs "name") with Some (VString nm) => nm | _ => [] end in
+    let maxid := option_map strip_ann (find_field fs "max_id") in
+    if match maxid with Some (VNull t) => t =? TInt | _ => false end then None      (* max_id: null.int *)
+    else if list_eqb name (s "$ion"%string) || list_eqb name [] then Some []        (* ignored *)
+    else match maxid with
+         | Some (VInt m) => if (m <? 0)%Z then None else Some [Gap (Z.to_N m)]      (* placeholder slots *)
+         | _ => None                               (* no usable max_id and no catalog: an error *)
+         end
+  | _ => Some []                                 (* not a declaration (also null.struct): ignored *)
   end.
-Definition apply_lst (ctx : symctx) (fs : list (symv * value)) : symctx :=
-  let syms := lst_symbols (find_field fs "symbols") in
+Fixpoint imports_slots (l : list value) : option symctx :=
+  match l with
+  | [] => Some []
+  | d :: r => match import_slots d, imports_slots r with Some a, Some b => Some (a ++ b) | _, _ => None end
+  end.
+(* the context a table struct installs; None = the stream is invalid.  Fields whose name has no text take no
+   part; a repeated symbols or imports field is an error *)
+Definition apply_lst (ctx : symctx) (fs : list (symv * value)) : option symctx :=
+  if (1 <? count_field fs "symbols")%nat || (1 <? count_field fs "imports")%nat then None else
+  let syms := [Slots (lst_symbols (find_field fs "symbols"))] in
   match option_map strip_ann (find_field fs "imports") with
   | Some (VSymbol (SymText t)) =>
-    if list_eqb t (s "$ion_symbol_table"%string) then ctx ++ syms else system_ctx ++ syms
-  | Some (VList imps) => system_ctx ++ flat_map import_slots imps ++ syms
-  | _ => system_ctx ++ syms
+    if list_eqb t (s "$ion_symbol_table"%string) then Some (ctx ++ syms) else Some (system_ctx ++ syms)
+  | Some (VList imps) => option_map (fun i => system_ctx ++ i ++ syms) (imports_slots imps)
+  | _ => Some (system_ctx ++ syms)
   end.
 
 (* ---- streams -------------------------------------------------------------------------------------------- *)
@@ -251,7 +276,7 @@ Fixpoint sp_stream (k : nat) (ctx : symctx) (l : list N) : option (list value) :
         | Some (None, r) => sp_stream k' ctx r
         | Some (Some v, r) =>
           match is_lst v with
-          | Some fs => sp_stream k' (apply_lst ctx fs) r
+          | Some fs => match apply_lst ctx fs with Some ctx' => sp_stream k' ctx' r | None => None end
           | None => option_map (cons v) (sp_stream k' ctx r)
           end
         | None => None
